@@ -2,6 +2,8 @@
 
 from __future__ import annotations
 
+import re
+
 import shutil
 from pathlib import Path
 
@@ -94,6 +96,7 @@ def run(rep: Report, tier: str, seed: int) -> None:
         "C03 trees (packed 120 per run) x naming conversion off/on, every output file checked; 11 inputs built to collide or to confuse the path computation (two stub texts for one path, declarations named like / prefix of the re-exporting package, class named like an ancestor package, module named like its package);"
         " console-script runs over 8 spellings of source/output path (absolute, relative, trailing slash, '..', pre-existing output, output inside source's parent, source given as parent directory); distinct = distinct (tree/input label, options)"
     )
+    spec_by_tid = {s.tid: s for s in specs}
     module_names_by_tree = {s.tid: {m.split(".")[-1] for m in s.modules} for s in specs}
     all_module_names: set[str] = set()
     for v in module_names_by_tree.values():
@@ -137,7 +140,13 @@ def run(rep: Report, tier: str, seed: int) -> None:
             if path.startswith("ESCAPED:"):
                 rep.violation("inside-out", f"inside-out:target|{feat}", {"target": path}, files=files if kind == "collision" else None, src_rel=PKG, opts=opts)
             if path in seen and seen[path] != text:
-                rep.violation("one-text-per-path", f"one-text-per-path|{feat}|{'nc' if opts.convert else 'py'}", {"path": path, "first": seen[path][:200], "second": text[:200]}, files=files if kind == "collision" else None, src_rel=PKG, opts=opts)
+                f3, fl3 = feat, files if kind == "collision" else None
+                mt = re.search(r"/t(\d{4})/", path)
+                if kind == "trees" and mt and int(mt.group(1)) in spec_by_tid:
+                    s3 = spec_by_tid[int(mt.group(1))]
+                    f3 = f"tree:{s3.label.split('|')[0]}{'+shadow' if s3.shadow else ''}|root:{s3.r_root}|sub:{s3.r_sub}"
+                    fl3 = pack_trees([s3])[0]
+                rep.violation("one-text-per-path", f"one-text-per-path|{f3}|{'nc' if opts.convert else 'py'}", {"path": path, "first": seen[path][:200], "second": text[:200]}, files=fl3, src_rel=PKG, opts=opts)
             else:
                 rep.ok("one-text-per-path")
             seen[path] = text
